@@ -390,6 +390,70 @@ def run(ctx):
             if q is not None and abs(qv * ed + er - ea) > TOL:
                 ctx.fail('divmod_identity', inp, impl=[float(qv), float(er)])
 
+    # ---- the same on ARRAYS whose elements need different treatment: some sit a hair below a multiple of the divisor at a large
+    # count (the single-double first guess of the quotient is then one too high and must be repaired), others are ordinary
+    for c in range(60 if ctx.tier == 'quick' else 1200):
+        d = rng.choice([1.0, 0.5, 3.0, 2.0, 0.25])
+        n = rng.choice([2, 3, 5])
+        two_d = rng.random() < 0.3
+        cnts, frs = [], []
+        for k in range(n * (2 if two_d else 1)):
+            kind = rng.choice(['hair_below', 'hair_above', 'ordinary', 'ordinary', 'exact_multiple'])
+            big = float(rng.choice([2 ** 40, 2 ** 45, 2 ** 30, -2 ** 40, 2 ** 50]))
+            m = big - (big % 3.0) if d == 3.0 else big          # a multiple of d (d divides powers of two except 3)
+            if kind == 'hair_below':
+                cnts.append(m); frs.append(-10.0 ** rng.choice([-9, -7, -12]))
+            elif kind == 'hair_above':
+                cnts.append(m); frs.append(10.0 ** rng.choice([-9, -7, -12]))
+            elif kind == 'exact_multiple':
+                cnts.append(m); frs.append(0.0)
+            else:
+                cnts.append(float(rng.randint(-2 ** 20, 2 ** 20))); frs.append(rand_frac(rng))
+        ca, fa = np.array(cnts), np.array(frs)
+        if two_d:
+            ca, fa = ca.reshape(2, n), fa.reshape(2, n)
+        a = Phase(ca, fa)
+        dq = rng.choice([d * u.cycle, Angle(d, u.cycle)])
+        which = rng.choice(['floordiv', 'mod', 'divmod'])
+        inp = dict(op=which + '_array', counts=cnts, fracs=frs, d=d, dkind=type(dq).__name__, shape=list(ca.shape))
+        ctx.seen(inp); ctx.count('op:' + which + '_array')
+        try:
+            if which == 'floordiv':
+                q, r = a // dq, None
+            elif which == 'mod':
+                q, r = None, a % dq
+            else:
+                q, r = divmod(a, dq)
+        except Exception as e:
+            ctx.fail('divmod_raised', inp, impl=repr(e))
+            continue
+        ed = Fr(d)
+        ra = np.asarray(r.view(np.ndarray)).reshape(-1) if r is not None else None
+        qa = np.asarray(getattr(q, 'value', q), dtype=float).reshape(-1) if q is not None else None
+        if r is not None and not isinstance(r, Phase):
+            ctx.fail('remainder_not_a_phase', inp, impl=type(r).__name__)
+            continue
+        for k in range(len(cnts)):
+            ea = Fr(cnts[k]) + Fr(frs[k])
+            if qa is not None:
+                qv = Fr(float(qa[k]))
+                rem = ea - qv * ed
+                if qv.denominator != 1 or not (-TOL <= rem <= ed + TOL):
+                    ctx.fail('floor_quotient_wrong', dict(inp, element=k), impl=float(qv), model=float(ea / ed))
+                    break
+            if ra is not None:
+                er = Fr(float(ra[k]['int'])) + Fr(float(ra[k]['frac']))
+                kk = (ea - er) / ed
+                if abs(ea - round(kk) * ed - er) > TOL * max(1, abs(round(kk))) and abs(ea - round(kk) * ed - er) > TOL:
+                    ctx.fail('remainder_value', dict(inp, element=k), impl=float(er), model=float(ea - math.floor(ea / ed) * ed))
+                    break
+                if not (-TOL <= er <= ed + TOL):
+                    ctx.fail('remainder_out_of_range', dict(inp, element=k), impl=float(er))
+                    break
+                if qa is not None and abs(Fr(float(qa[k])) * ed + er - ea) > TOL:
+                    ctx.fail('divmod_identity', dict(inp, element=k), impl=[float(qa[k]), float(er)])
+                    break
+
     # ---- sin / cos / exp depend only on the fractional part
     for c in range(60 if ctx.tier == 'quick' else 1000):
         a = rand_phase(rng)
